@@ -19,6 +19,33 @@ theorem rb_inorder_insert {α : Type} (gt : α → α → Bool)
     inorder (Rb.insert gt x t) = sins (fun a b => !gt a b) x (inorder t) :=
   inorder_insert gt trans x t hs
 
+/-- the comparison the sibling-list model orders system-ordered instances by (`Key.le`, i.e. the type plugin's `sort`
+    callback), as `rb_compare(d, x) > 0` -/
+def keyGt (d x : Node) : Bool := !(d.key.le x.key)
+
+/-- non-vacuity (audit): hypothesis `trans` holds for the model's REAL key order (numeric and `strcmp` keys) -/
+theorem keyGt_trans (a b c : Node) : keyGt a b = false → keyGt b c = false → keyGt a c = false := by
+  simp only [keyGt, Bool.not_eq_false']
+  exact Key.le_trans a.key b.key c.key
+
+/-- a tree of seven string-keyed list instances (with one equal key), built by the insertion itself -/
+def auT : T Node :=
+  ([⟨1, some ⟨0, 0⟩, .str [109]⟩, ⟨2, some ⟨0, 0⟩, .str [99]⟩, ⟨3, some ⟨0, 0⟩, .str [120]⟩, ⟨4, some ⟨0, 0⟩, .str [99]⟩,
+    ⟨5, some ⟨0, 0⟩, .str [99, 97]⟩, ⟨6, some ⟨0, 0⟩, .str []⟩, ⟨7, some ⟨0, 0⟩, .str [122]⟩] : List Node).foldl
+    (fun t x => Rb.insert keyGt x t) T.nil
+
+/-- non-vacuity (audit): the theorem at `auT` (its in-order sequence is sorted: hypothesis `hs`) and a new instance whose key
+    `"c"` equals two stored keys: it goes behind both (ids 2, 4) and in front of `"ca"` -/
+example : inorder (Rb.insert keyGt ⟨8, some ⟨0, 0⟩, .str [99]⟩ auT) =
+      sins (fun a b => !keyGt a b) ⟨8, some ⟨0, 0⟩, .str [99]⟩ (inorder auT) ∧
+    (inorder (Rb.insert keyGt ⟨8, some ⟨0, 0⟩, .str [99]⟩ auT)).map (·.id) = [6, 2, 4, 8, 5, 1, 3, 7] :=
+  ⟨rb_inorder_insert keyGt keyGt_trans _ auT (by decide), by decide⟩
+
+/-- non-vacuity (audit): the same with integer keys (leaf-list of `int32`), negative values included -/
+example : (inorder (Rb.insert keyGt ⟨9, none, .int (-2)⟩
+      (([⟨1, none, .int 5⟩, ⟨2, none, .int (-7)⟩, ⟨3, none, .int 0⟩] : List Node).foldl (fun t x => Rb.insert keyGt x t) T.nil))).map (·.id) =
+    [2, 9, 3, 1] := by decide
+
 /-- balanced, no red node with a red child, black root — preserved by every insertion -/
 theorem rb_insert_isRB {α : Type} (gt : α → α → Bool) (x : α) (t : T α) (h : IsRB t) : IsRB (Rb.insert gt x t) :=
   insert_isRB gt x t h
@@ -31,6 +58,23 @@ theorem rb_reachable {α : Type} (gt : α → α → Bool) (xs : List α) :
     | nil => intro t h; exact h
     | cons x r ih => intro t h; exact ih _ (insert_isRB gt x t h)
   exact this T.nil ⟨trivial, trivial, rfl⟩
+
+/-- non-vacuity (audit): `IsRB` is met by the seven-node tree `auT` (by `rb_reachable`), `rb_insert_isRB` applies to it -/
+example : IsRB auT := rb_reachable keyGt _
+
+example : IsRB (Rb.insert keyGt ⟨8, some ⟨0, 0⟩, .str [99]⟩ auT) := rb_insert_isRB keyGt _ auT (rb_reachable keyGt _)
+
+/-- non-vacuity (audit): `IsRB` is not trivially true — a red root, a red node with a red child and an unbalanced tree
+    are rejected -/
+example : ¬ IsRB (T.node .red .nil (1 : Nat) .nil) := fun h => by have := h.2.2; revert this; decide
+
+example : ¬ IsRB (T.node .black (.node .red (.node .red .nil (0 : Nat) .nil) 1 .nil) 2 .nil) := fun h => by
+  have := (h.2.1.1.2.2 rfl).1
+  revert this; decide
+
+example : ¬ IsRB (T.node .black (.node .black .nil (1 : Nat) .nil) 2 .nil) := fun h => by
+  have := h.1.2.2
+  revert this; decide
 
 /-! non-vacuity: inserting 5, 3, 8, 3, 4, 9, 1 rotates and recolours; the equal key 3 goes behind the first 3 -/
 example : inorder ([5, 3, 8, 3, 4, 9, 1].foldl (fun t x => Rb.insert (fun d y => decide (d > y)) x t) (T.nil : T Int)) =
